@@ -40,6 +40,10 @@ rc, out = sh(f"git -C /repo worktree add -q --detach {wt} HEAD")
 assert rc == 0, out
 import atexit
 atexit.register(lambda: sh(f"git -C /repo worktree remove --force {wt}"))
+# run the demo from inside the worktree (some demos locate tests/data relative to their own path)
+wsrc = f"{wt}/seed/{var}"
+os.makedirs(os.path.dirname(wsrc), exist_ok=True)
+shutil.copytree(src, wsrc, dirs_exist_ok=True)
 meta = {"property": pid, "variant": var, "source": "independent sub-agent working only from the property text"}
 assert sh("git status --porcelain pulsarbat", cwd=wt)[1].strip() == "", "worktree not clean"
 base_pass, base_failed = suite(wt)
@@ -48,10 +52,10 @@ assert rc == 0, "patch does not apply: " + out
 sh(f"git apply {src}/patch.diff", cwd=wt)
 try:
     mp, mf = suite(wt)
-    rc_demo_mut, out_demo_mut = sh(f"/venv/bin/python {src}/demo.py", cwd=src, env=env)
+    rc_demo_mut, out_demo_mut = sh(f"/venv/bin/python {wsrc}/demo.py", cwd=wsrc, env=env)
 finally:
     sh("git checkout -- pulsarbat", cwd=wt)
-rc_demo_clean, out_demo_clean = sh(f"/venv/bin/python {src}/demo.py", cwd=src, env=env)
+rc_demo_clean, out_demo_clean = sh(f"/venv/bin/python {wsrc}/demo.py", cwd=wsrc, env=env)
 meta["suite_clean"] = {"passed": base_pass, "failed": base_failed}
 meta["suite_with_change"] = {"passed": mp, "failed": mf}
 meta["tests_unchanged"] = (mp == base_pass and mf == base_failed)
